@@ -1192,7 +1192,9 @@ def run_cases(ctx, cases, batch=24, workers=8):
     for c in cases:
         probe = _Probe(ctx)
         judge(probe, c, by_id[c.id], model[c.id] if model else None)
-        if probe.dirty:
+        if probe.dirty and (len(ctx.violations) >= 20 or len(ctx.disagreements) >= 20):
+            ctx.count('unconfirmed-after-20-reports')       # enough failing inputs already; keep the run inside its time budget
+        elif probe.dirty:
             # confirm alone in a fresh process before reporting
             r1 = run_worker(REPO, [c.job()])[0]
             probe = _Probe(ctx)
